@@ -277,8 +277,8 @@ theorem preRun_clients (s : Server) (ticked : Bool) (ms : Nat) :
   unfold preRun
   simp only
   rw [(bufferRemovals_ctl _).1]
-  by_cases hf : (decide (s.timerAcc + min ms 250 ≥ s.timeout) && decide (s.timeout > 0)) = true
-  · refine ⟨fun cl => { cl.processAcks with inflight := cl.processAcks.inflight.filter fun i => !(i.time < s.elapsed + min ms 250 - s.timeout) }, ?_, ?_⟩
+  by_cases hf : (decide (s.timerAcc + s.frameMs ms ≥ s.timeout) && decide (s.timeout > 0)) = true
+  · refine ⟨fun cl => { cl.processAcks with inflight := cl.processAcks.inflight.filter fun i => !(i.time < s.elapsed + s.frameMs ms - s.timeout) }, ?_, ?_⟩
     · intro cl; exact processAcks_keeps cl
     · simp only [hf, if_true]
       cases ticked <;> simp [Server.cleanupAcks, List.map_map, Function.comp]
@@ -310,7 +310,7 @@ theorem preRun_tick (s : Server) (ticked : Bool) (ms : Nat) :
   unfold preRun
   simp only
   rw [(bufferRemovals_ctl _).2.1, (bufferRemovals_ctl _).2.2.1]
-  by_cases hf : (decide (s.timerAcc + min ms 250 ≥ s.timeout) && decide (s.timeout > 0)) = true
+  by_cases hf : (decide (s.timerAcc + s.frameMs ms ≥ s.timeout) && decide (s.timeout > 0)) = true
   · cases ticked <;> simp [hf, Server.cleanupAcks]
   · cases ticked <;> simp [hf]
 
